@@ -281,6 +281,12 @@ class TimeCachingAdapter(Adapter, NoBranchAdapter, ABC):
             return dtools.UNITS.Quantity(data, self._input_info.units)
         return where
 
+    def _finalize(self):
+        for _t, d in self.data:
+            if isinstance(d, str):
+                os.remove(d)
+        self.data.clear()
+
     @abstractmethod
     def _interpolate(self, time):
         """Interpolate for the given time"""
